@@ -318,7 +318,7 @@ def parse_single_name_into_parts(name, strict=True):
                         if (case == -1) and escaped.isalpha() and (level == 0 or specialchar):
                             if escaped.isupper():
                                 case = 1
-                            else:
+                            elif escaped.islower():
                                 case = 0
 
                     # Copy the escape to the current word and go to the next
@@ -379,7 +379,7 @@ def parse_single_name_into_parts(name, strict=True):
                 if (case == -1) and char.isalpha():
                     if char.isupper():
                         case = 1
-                    else:
+                    elif char.islower():
                         case = 0
 
             # Append the character and move on.
@@ -412,7 +412,7 @@ def parse_single_name_into_parts(name, strict=True):
         if (case == -1) and char.isalpha():
             if char.isupper():
                 case = 1
-            else:
+            elif char.islower():
                 case = 0
 
     # Unterminated brace?
